@@ -10,6 +10,7 @@
     `fraction × volume` of every component in every real well.
 -/
 import Robotools.Props.C01
+import Robotools.Proofs.CtorGood
 namespace Robotools.C05
 open Robotools RP C03
 
@@ -48,5 +49,16 @@ theorem history_ideal_mixture (w₀ : World) (hwf : WF w₀) (hgood : Amt.Good w
           ∧ ∀ k, amtOf wl.amts k = amount L i k := by
   obtain ⟨⟨st, hrun, hM, hA⟩, _⟩ := C01.replay_composition w₀ hwf hgood h0 ops hops hok
   exact ⟨st, hrun, fun l L hL i hi => C01.amount_well hM hA l L hL i hi⟩
+
+/-- The hypothesis `Amt.Good` of the whole-history theorems is what the constructors establish: every
+    labware returned by `Labware(...)` / `Trough(...)` respects its limits, has a well-formed composition
+    table (one array per distinct component, all of the labware's size, no negative entry) and, in every
+    real well, fractions summing to 1 (initially filled: 100 % of one component) or to 0 (empty). -/
+theorem constructed_good (w : World)
+    (h : ∀ L ∈ w.labs, (∃ s, Labware.mk? s = .ok L) ∨ (∃ s, Trough.mk? s = .ok L)) : Amt.Good w := by
+  intro L hL
+  rcases h L hL with ⟨s, hs⟩ | ⟨s, hs⟩
+  · exact CtorGood.mk_good s L hs
+  · exact CtorGood.trough_mk_good s L hs
 
 end Robotools.C05
